@@ -1506,13 +1506,26 @@ class ArrowSerializableDataclass:
                 )
             return inner_type(**nested_kwargs)
 
-        # Handle frozenset reconstruction
+        # Handle frozenset reconstruction (elements converted like list elements)
         if get_origin(inner_type) is frozenset and isinstance(value, list):
+            set_args = get_args(inner_type)
+            if set_args:
+                return frozenset(cls._convert_value_for_deserialization(v, set_args[0], ipc_validation) for v in value)
             return frozenset(value)
 
-        # Handle dict reconstruction from list of tuples
+        # Handle dict reconstruction from list of tuples (keys and values converted like list elements)
         if get_origin(inner_type) is dict and isinstance(value, list):
-            return dict(cast("list[tuple[object, object]]", value))
+            pairs = cast("list[tuple[object, object]]", value)
+            map_args = get_args(inner_type)
+            if len(map_args) == 2:
+                key_type, item_type = map_args
+                return {
+                    cls._convert_value_for_deserialization(
+                        k, key_type, ipc_validation
+                    ): cls._convert_value_for_deserialization(v, item_type, ipc_validation)
+                    for k, v in pairs
+                }
+            return dict(pairs)
 
         # Handle list with element type conversion
         origin = get_origin(inner_type)
